@@ -60,7 +60,7 @@ def gen_tree(rng, want_std=None):
     for i in range(2, len(run)):
         t.append(["/".join(run[:i]), "d"])
     # (no links to an ancestor of themselves: recursive glob follows symlinks and would blow up)
-    links_to = ["/ext/e1", "/ext/f1", "/ext/nope", "/ext/e1/sub", "/cylc-run/other", "/scr", "/scr/cylc-run/otherwf",
+    links_to = ["/ext/e1", "/ext/f1", "/ext/nope", "/ext/e1/sub", "/cylc-run/other", "/scr/cylc-run/otherwf",
                 "../nope"]
     run_s = "/".join(run)
     run_is_link = rng.random() < 0.07
